@@ -58,6 +58,15 @@ Definition attempt (present : chunks) (st : tx_state) (a : attempt_in) : chunks 
       else (present, AttDone probe false)
   end.
 
+(* Headers.open on a header FILE (get_all_missing_headers): whatever the file holds for chunk k, the chunk
+   counts as present only if those bytes hash to checkpoint k; everything else is "missing" and will be
+   fetched (and checked) again *)
+Definition reopen (disk : chunks) : chunks :=
+  filter (fun kc => match nth_error cps (fst kc) with
+                    | Some cp => bytes_eqb (dsha (concat (snd kc))) cp
+                    | None => false
+                    end) disk.
+
 (* a sequence of attempts, each with a fresh Transaction object *)
 Fixpoint attempts (present : chunks) (l : list attempt_in) : chunks * list att_result :=
   match l with
